@@ -157,6 +157,9 @@ func (c *Ctx) recordBFS(id string, v Verdict, rerun func() Verdict) {
 	}
 	for i := 0; i < 5; i++ {
 		w, hung := withWatchdog(rerun, c.CaseTimeout)
+		if !hung && !v.OK && v.KF != "" && c.KFListed[v.KF] && (w.OK || w.KF == v.KF) {
+			continue // same listed-finding class; the detail may contain data the harness does not control (see core.go)
+		}
 		if hung || w.OK != v.OK || w.Detail != v.Detail {
 			if strings.Contains(v.Detail, "HARNESS") || strings.Contains(w.Detail, "HARNESS") {
 				c.Broken("harness problem: history %s gave different verdicts on re-execution:\n first: %s\n again: %s", id, v.Detail, w.Detail)
